@@ -1,5 +1,6 @@
 #!/bin/bash
-# run_seeds.sh [name...]: for each seeded change: apply to /repo, run the quick check of its property, revert.
+# run_seeds.sh [name...]: for each seeded change: apply to /repo, run the quick check of its property
+# (and of every further check listed under "checks" in its meta.json), revert.
 # Records the outcome in seeded/<name>/detected.json. Never leaves /repo modified.
 set -u
 cd /verif
@@ -7,16 +8,29 @@ NAMES="$@"; [ -z "$NAMES" ] && NAMES=$(ls seeded)
 for n in $NAMES; do
   d=/verif/seeded/$n
   prop=$(python3 -c "import json;print(json.load(open('$d/meta.json'))['property'])")
+  checks=$(python3 -c "import json;m=json.load(open('$d/meta.json'));print(' '.join(m.get('checks',[m['property']])))")
   if [ -n "$(git -C /repo status --porcelain)" ]; then echo "/repo not clean, abort"; exit 2; fi
   if ! git -C /repo apply "$d/patch.diff"; then echo "$n: patch does not apply"; continue; fi
-  out=$(VERIF_SEED=${VERIF_SEED:-1} ./check $prop ${TIER:-quick} 2>&1); rc=$?
+  results=""
+  for c in $checks; do
+    out=$(VERIF_SEED=${VERIF_SEED:-1} ./check $c ${TIER:-quick} 2>&1); rc=$?
+    sigs=$(echo "$out" | grep -E "^  signature:" | sed 's/^  signature: //' | sort -u | head -5 | tr '\n' ';')
+    echo "$n: property=$prop check=$c tier=${TIER:-quick} exit=$rc signatures=$sigs"
+    results="$results$c|$rc|$sigs
+"
+  done
   git -C /repo checkout -- .
-  sigs=$(echo "$out" | grep -E "^  signature:" | sed 's/^  signature: //' | sort -u | head -5 | tr '\n' ';')
-  echo "$n: property=$prop tier=${TIER:-quick} exit=$rc signatures=$sigs"
-  python3 - "$d" "$prop" "$rc" "$sigs" "${TIER:-quick}" <<'PY'
+  python3 - "$d" "$prop" "${TIER:-quick}" "$results" <<'PY'
 import json,sys
-d,prop,rc,sigs,tier=sys.argv[1:]
-json.dump({"check":prop,"tier":tier,"exit":int(rc),"detected":int(rc)==1,"signatures":[s for s in sigs.split(';') if s]},open(d+"/detected.json","w"),indent=1)
+d,prop,tier,results=sys.argv[1:]
+runs=[]
+for line in results.strip().split("\n"):
+    if not line: continue
+    c,rc,sigs=line.split("|",2)
+    runs.append({"check":c,"exit":int(rc),"detected":int(rc)==1,"signatures":[s for s in sigs.split(';') if s]})
+own=[r for r in runs if r["check"]==prop]
+json.dump({"tier":tier,"property":prop,"detected":any(r["detected"] for r in runs),
+           "detected_by_own_check":bool(own and own[0]["detected"]),"runs":runs},open(d+"/detected.json","w"),indent=1)
 PY
 done
-# restore evidence for the unchanged tree is the caller's job (re-run the checks)
+# restoring evidence for the unchanged tree is the caller's job (re-run the checks)
